@@ -87,3 +87,60 @@ fn c01_crafted_shift_and_offset_patterns() {
     }
     println!("CASES c01_crafted {n}");
 }
+
+/// boundary constants as offsets/sizes of every memory-touching opcode (copies, hashing, logs, calls, creates, returns)
+#[test]
+fn c01_memory_operand_boundaries() {
+    std::panic::set_hook(Box::new(|_| {}));
+    let bw: Vec<ethnum::U256> = {
+        let one = ethnum::U256::ONE;
+        vec![ethnum::U256::ZERO, one, ethnum::U256::new(31), ethnum::U256::new(32), ethnum::U256::new(33), ethnum::U256::new(1 << 32), ethnum::U256::new((1u128 << 64) - 32), ethnum::U256::new((1u128 << 64) - 31),
+             ethnum::U256::new((1u128 << 64) - 1), ethnum::U256::new(1u128 << 64), one << 255u32, ethnum::U256::MAX]
+    };
+    // (opcode, number of stack operands)
+    let ops: [(u8, usize); 19] = [(0x20, 2), (0x37, 3), (0x39, 3), (0x3c, 4), (0x3e, 3), (0x51, 1), (0x52, 2), (0x53, 2), (0xa0, 2), (0xa1, 3), (0xa2, 4),
+                                 (0xf0, 3), (0xf1, 7), (0xf2, 7), (0xf3, 2), (0xf4, 6), (0xf5, 4), (0xfa, 6), (0xfd, 2)];
+    let mut rng = Rng::seeded(77);
+    let mut cases = 0u64;
+    for (op, n) in ops {
+        for round in 0..(10 * scale()) {
+            let mut code = vec![];
+            let mut desc = vec![];
+            for k in 0..n {
+                // sweep one operand over the whole boundary set while the others are small, then go random
+                let w = if round < bw.len() as u64 && k == (round as usize % n) { bw[round as usize] } else if rng.below(3) == 0 { bw[rng.below(bw.len() as u64) as usize] } else { ethnum::U256::new(rng.below(96) as u128) };
+                code.extend(push32(w));
+                desc.push(format!("{w:#x}"));
+            }
+            code.push(op);
+            code.push(0x00);
+            if let Out::Panic = analyze(&code, true) {
+                witness("C01", "analyze.panic.memory_operands", format!("op {op:#04x} operands(pushed first..last)={desc:?} code={code:02x?}"), "PANIC".into(), "layout or error".into());
+            }
+            cases += 1;
+        }
+    }
+    println!("CASES c01_memory_operands {cases}");
+}
+
+/// cyclic type evidence (a slot used as element / key / value of itself): must end in a layout or an error,
+/// never in unbounded recursion.  `RUNNING` lines let the runner name the input if the process is killed.
+#[test]
+fn c01_cyclic_type_evidence_terminates() {
+    use std::io::Write;
+    let progs: Vec<(&str, Vec<u8>)> = vec![
+        ("dynamic array of itself: v=sload(0); sstore(keccak(0)+calldataload(0), v)", vec![0x5f, 0x54, 0x5f, 0x5f, 0x52, 0x60, 0x20, 0x5f, 0x20, 0x5f, 0x35, 0x01, 0x55, 0x00]),
+        ("mapping whose value is itself: sstore(keccak(calldataload(0) ++ 0), sload(0))", vec![0x5f, 0x54, 0x5f, 0x35, 0x5f, 0x52, 0x5f, 0x60, 0x20, 0x52, 0x60, 0x40, 0x5f, 0x20, 0x55, 0x00]),
+        ("mapping keyed by itself: sstore(keccak(sload(0) ++ 0), 1)", vec![0x5f, 0x54, 0x5f, 0x52, 0x5f, 0x60, 0x20, 0x52, 0x60, 0x40, 0x5f, 0x20, 0x60, 0x01, 0x90, 0x55, 0x00]),
+        ("array element stored back into the array: a[i] = a[j]", vec![0x5f, 0x5f, 0x52, 0x60, 0x20, 0x5f, 0x20, 0x80, 0x5f, 0x35, 0x01, 0x54, 0x90, 0x60, 0x20, 0x35, 0x01, 0x55, 0x00]),
+    ];
+    let n = progs.len();
+    for (name, code) in progs {
+        println!("RUNNING c01_cyclic {name}: {code:02x?}");
+        std::io::stdout().flush().ok();
+        if let Out::Panic = analyze(&code, true) {
+            witness("C01", "analyze.panic.cyclic_types", format!("{name}: {code:02x?}"), "PANIC".into(), "layout or error".into());
+        }
+    }
+    println!("CASES c01_cyclic {n}");
+}
